@@ -430,7 +430,13 @@ def minimize_lbfgsb(
                 ),
             )
         else:
-            return checkpoint
+            # the checkpoint already meets the target: report it with the termination
+            # reason of this call, not with the one of the run that produced it
+            res = copy.copy(checkpoint)
+            res["message"] = istate.task_str
+            res["success"] = istate.is_success
+            res["status"] = istate.warnflag
+            return res
 
     # Compute the first gradient if no checkpoint provided
     if checkpoint is None:
